@@ -336,9 +336,10 @@ where
                 // cookie back with the response, so we don't do that here
                 // unlike in the other cases where we respond early.
                 debug!("Received malformed DNS cookie: {err}");
-                let mut builder = mk_builder_for_target();
-                builder.header_mut().set_rcode(Rcode::FORMERR);
-                return ControlFlow::Break(builder.additional());
+                return ControlFlow::Break(mk_error_response(
+                    request.message(),
+                    OptRcode::FORMERR,
+                ));
             }
 
             Some(Ok(cookie)) => {
